@@ -66,8 +66,12 @@ func taskCoq(t Task) string {
 	if t.Method == "timestamp" {
 		m = "Timestamp"
 	}
-	return fmt.Sprintf("{| t_name := %s; t_label := %s; t_method := %s; t_sources := %s; t_generates := %s; t_status := %s; t_prompt := %s; t_dir := %s; t_ncmds := %d; t_outputs := %s |}",
-		cg.Str(t.Name), label, m, globsCoq(t.Sources), globsCoq(t.Generates), cg.StrList(t.Status), cg.Bool(t.Prompt), cg.Str(t.Dir), t.NCmds, cg.StrList(t.Outputs))
+	sub := "None"
+	if t.SubGuard != "" {
+		sub = "(Some " + cg.Str(t.SubGuard) + ")"
+	}
+	return fmt.Sprintf("{| t_name := %s; t_label := %s; t_method := %s; t_sources := %s; t_generates := %s; t_status := %s; t_prompt := %s; t_dir := %s; t_ncmds := %d; t_outputs := %s; t_subguard := %s |}",
+		cg.Str(t.Name), label, m, globsCoq(t.Sources), globsCoq(t.Generates), cg.StrList(t.Status), cg.Bool(t.Prompt), cg.Str(t.Dir), t.NCmds, cg.StrList(t.Outputs), sub)
 }
 
 func projCoq(p []Task) string {
